@@ -545,3 +545,100 @@ def k9(ctx):
 
 
 RULES.append(k9)
+
+
+def _peel(r):
+    """role with clones / borrows / derefs removed; returns (core role, number of prove_symmetry applications)"""
+    flips = 0
+    r = strip_role(r)
+    for _ in range(12):
+        if isinstance(r, tuple) and r[0] == "call" and r[3]:
+            if r[1] in ("clone", "deref", "borrow", "as_ref", "to_owned"):
+                r = strip_role(r[3][0])
+                continue
+            if r[1] == "prove_symmetry":
+                flips += 1
+                r = strip_role(r[3][-1])
+                continue
+        break
+    return r, flips
+
+
+def _component(crate, b, r):
+    """(base call role, position) when r is a component of the value a crate function returns: `.k` of a tuple, or a named field of
+    a private result struct (position = declaration order)"""
+    if not (isinstance(r, tuple) and r[0] == "field"):
+        return None
+    base = strip_role(r[1])
+    if not (isinstance(base, tuple) and base[0] == "call"):
+        return None
+    if str(r[2]).isdigit():
+        return base, int(r[2])
+    for cb_ in b.all_bodies():
+        cs_ = cb_.call_at.get(base[4])
+        if cs_ is not None and cs_.callee and cs_.callee.target in crate.bodies:
+            adt_ = crate.adt_named(crate.bodies[cs_.callee.target].local_ty(0).split("<")[0])
+            if adt_ is not None:
+                names_ = [f["name"] for f in adt_["variants"][0]["fields"]]
+                if r[2] in names_:
+                    return base, names_.index(r[2])
+    return None
+
+
+@rule("K10", cfgs=EXPL, doc="a proof produced on the spot is handed on together with the operands it is about, in its own orientation: (a, b, proof) of a congruence step goes to union / shrink as (a, b) — shrink gets a —, the proof stored with a group element p goes with (identity invocation, p-renamed invocation); swapped operands need prove_symmetry")
+def k10(ctx):
+    crate = ctx.lib()
+    n = 0
+    for b0 in crate.fns():
+        if not (b0.file or "").startswith("src/egraph/") or (b0.file or "").endswith("/check.rs"):
+            continue
+        for b in b0.all_bodies():
+            for c in b.calls:
+                if b.blocks[c.bb]["cleanup"] or not c.callee or c.callee.target not in crate.bodies:
+                    continue
+                tb = crate.bodies[c.callee.target]
+                if tb.argc != len(c.args):
+                    continue
+                ids = [i for i in range(len(c.args)) if tb.local_ty(i + 1).lstrip("&").strip() == "types::AppliedId"]
+                prf = [i for i in range(len(c.args)) if "ProvenEq" in tb.local_ty(i + 1)]
+                if len(prf) != 1 or not ids or len(ids) > 2:
+                    continue
+                pr, flips = _peel(b.role_of_operand(c.args[prf[0]]))
+                idr = [_peel(b.role_of_operand(c.args[i]))[0] for i in ids]
+                comp = _component(crate, b, pr)
+                where = where_of(b, c.bb)
+                key = "%s:%s" % (C.fkey(b0), c.callee.name)
+                if comp is not None and comp[1] == 2 and comp[0][1] == "pc_congruence":
+                    # (a, b, proof) = pc_congruence(..): proof proves a = b
+                    got = []
+                    for r in idr:
+                        cc = _component(crate, b, r)
+                        got.append(cc[1] if cc is not None and cc[0] == comp[0] else None)
+                    if any(g is None for g in got):
+                        continue
+                    n += 1
+                    want = ([0, 1] if flips % 2 == 0 else [1, 0])[:len(got)]
+                    ctx.check(got == want, "local-proof-orientation:" + key, "%s hands %s the congruence proof with the operand(s) it is about, in order" % (C.short(b0.id), c.callee.name),
+                              "%s calls %s with component(s) %s of the congruence result and the %sproof of (component 0 = component 1): the callee takes its first invocation as the proof's left side, so the explanation it records is about the other invocation (same class, different slot names) — proofs built on it do not check" % (
+                                  C.short(b0.id), c.callee.name, got, "flipped " if flips % 2 else ""), where)
+                elif isinstance(pr, tuple) and pr[0] == "field" and pr[2] == "proof" and len(idr) == 2:
+                    # the proof stored with a group element p proves  class[identity] = class[p]
+                    pv = strip_role(pr[1])
+                    def about(r):
+                        if any(isinstance(x, tuple) and x[0] == "call" and x[1] in ("mk_sem_identity_applied_id", "mk_identity_applied_id", "identity") for x in role_walk(r)) and not any(strip_role(x) == pv for x in role_walk(r) if isinstance(x, tuple)):
+                            return "identity"
+                        if any(strip_role(x) == pv for x in role_walk(r) if isinstance(x, tuple)):
+                            return "element"
+                        return None
+                    got = [about(r) for r in idr]
+                    if None in got:
+                        continue
+                    n += 1
+                    want = ["identity", "element"] if flips % 2 == 0 else ["element", "identity"]
+                    ctx.check(got == want, "local-proof-orientation:" + key, "%s re-asserts a group element as (identity invocation, renamed invocation) with the element's own proof" % C.short(b0.id),
+                              "%s calls %s with the operands (%s) and the %sproof stored with the group element, which proves class[identity] = class[element]: operands and proof are oriented differently, the recorded explanation proves the converse equation" % (
+                                  C.short(b0.id), c.callee.name, ", ".join(got), "flipped " if flips % 2 else ""), where)
+    ctx.floor("call sites that pass a locally produced proof with its operands", n, 2)
+
+
+RULES.append(k10)
